@@ -417,3 +417,35 @@ func TestStepLimit(t *testing.T) {
 		t.Fatalf("%s", r.Summary())
 	}
 }
+
+func TestOnScheduleAndTotals(t *testing.T) {
+	n, pts, steps := 0, 0, 0
+	blocked := 0
+	r := Explore(Options{MaxPreemptions: 2, OnSchedule: func(o *Outcome, points int) {
+		n++
+		pts += points
+		steps += o.Steps
+		if len(o.Choices) != points {
+			t.Errorf("points %d vs choices %v", points, o.Choices)
+		}
+		for _, g := range o.Leaked {
+			if g.BlockedForever {
+				blocked++
+			}
+		}
+	}}, func() {
+		c := make(chan int)
+		Go("l.go:1", "orphan", func() { Recv(c) })
+		pingPong()
+	})
+	if n != r.Schedules || n == 0 || blocked != n {
+		t.Fatalf("callback %d times, schedules %d, blocked %d", n, r.Schedules, blocked)
+	}
+	if r.TotalSteps < int64(steps) || r.TotalPoints < int64(pts) || r.TotalSteps == 0 {
+		t.Fatalf("totals %d/%d vs per-schedule sums %d/%d", r.TotalSteps, r.TotalPoints, steps, pts)
+	}
+	m := Merge(r, r)
+	if m.TotalSteps != 2*r.TotalSteps || m.TotalPoints != 2*r.TotalPoints {
+		t.Fatal("merge totals")
+	}
+}
